@@ -296,15 +296,36 @@ def oracle(spec):
                      first=d[:3])
     else:
         # a subnet made of a complete supplied region reproduces that region's results
-        na, ea = netgen.try_run(spec, **oracles.TIGHT)
-        if ea is not None:
+        # half of the cases keep the calculation options on the net itself (set_user_pf_options), as converted nets do: the
+        # subnet is then calculated by a plain pipeflow(sub) and must carry the options with it
+        stored = bool(rng.random() < 0.5)
+        all_opts = dict(spec["options"], **oracles.TIGHT)
+        if stored:
+            all_opts.update(friction_model="colebrook", max_iter_colebrook=200, tolerance_colebrook=1e-10, ambient_temperature=281.15)
+
+        def calc(net):
+            if stored:
+                pp.pipeflow(net)
+            else:
+                pp.pipeflow(net, **all_opts)
+
+        def build():
+            net = netgen.build(spec)
+            if stored:
+                pp.set_user_pf_options(net, **all_opts)
+            return net
+
+        na = build()
+        try:
+            calc(na)
+        except Exception as ea:
             return {"status": "skip:" + type(ea).__name__}
         sup = [int(j) for j in na.res_junction.index[~np.isnan(na.res_junction.p_bar.values)]]
         if len(sup) == len(na.junction):
             return {"status": "skip:everything-supplied"}
         try:
-            sub = tb.select_subnet(netgen.build(spec), sup)
-            netgen.run(sub, spec, **oracles.TIGHT)
+            sub = tb.select_subnet(build(), sup)
+            calc(sub)
         except Exception as e:
             fail("C17:subnet:raises:%s%s" % (type(e).__name__, ":pipe-valve" if has_pv else ""),
                  "subnet of the supplied region reproduces its results", exc=repr(e)[:150])
